@@ -9,8 +9,10 @@ import (
 	"pgregory.net/rapid"
 )
 
-// AllServices are the 24 director-less services C01/C09 quantify over.
-var AllServices = []string{"adb", "counterstrike", "cwmp", "dns", "docker", "echo", "elasticsearch", "eos", "ethereum", "ftp", "http", "https", "ipp", "ldap", "memcached", "ntp", "redis", "smtp", "snmp", "ssh-auth", "ssh-simulator", "telnet", "tftp", "vnc"}
+// AllServices are the 24 director-less services C01/C09 quantify over, plus "shared": a
+// port that three of them (cwmp, docker, http) share, so that the server's choice by the
+// first bytes is part of the path.
+var AllServices = []string{"adb", "counterstrike", "cwmp", "dns", "docker", "echo", "elasticsearch", "eos", "ethereum", "ftp", "http", "https", "ipp", "ldap", "memcached", "ntp", "redis", "smtp", "snmp", "ssh-auth", "ssh-simulator", "telnet", "tftp", "vnc", "shared"}
 
 // Traffic is what one connection (or datagram sequence) carries.
 type Traffic struct {
@@ -286,6 +288,11 @@ func GenTraffic(t *rapid.T, service string) Traffic {
 			u = append(u, c.Wire)
 		}
 		return u
+	}
+	if service == "shared" {
+		tr = GenTraffic(t, rapid.SampledFrom(PortOf("shared").Services).Draw(t, "shared-as"))
+		tr.Service = "shared"
+		return tr
 	}
 	switch service {
 	case "ftp":
